@@ -15,6 +15,7 @@ import (
 	"io"
 	"math/big"
 	"net"
+	"net/netip"
 	"os"
 	"os/exec"
 	"runtime/debug"
@@ -767,6 +768,15 @@ func runC17(o *out, thorough bool, r *rng, _ []string) map[string]interface{} {
 		}
 		inputs = append(inputs, s)
 	}
+	// every host form of the dictionary (zones, percent escapes, IDNA labels, odd IPv6 spellings, userinfo) under every
+	// scheme, through parse - format - parse
+	for _, p := range []string{"stun:", "stuns:", "turn:", "turns:"} {
+		for _, h := range uriHostDictionary {
+			for _, tail := range []string{"", ":3478", "?transport=udp", ":5349?transport=tcp"} {
+				inputs = append(inputs, []byte(p+h+tail))
+			}
+		}
+	}
 	for i, res := range parseBatch(o, inputs) {
 		preParsed[string(inputs[i])] = res
 	}
@@ -793,9 +803,17 @@ func runC17(o *out, thorough bool, r *rng, _ []string) map[string]interface{} {
 // ClientHello names the host
 func dialParsed(o *out) {
 	for _, s := range []string{"stun:example.org", "stuns:example.org", "turn:example.org", "turn:example.org?transport=tcp",
-		"turns:example.org", "turns:example.org?transport=udp", "turns:example.org:443?transport=tcp"} {
+		"turns:example.org", "turns:example.org?transport=udp", "turns:example.org:443?transport=tcp",
+		// IP literals, zoned and oddly spelled ones included: the address dialed is the host as written
+		"stun:[2001:db8::1]", "turn:[fe80::1%eth0]", "turn:[fe80::1%eth0]?transport=tcp", "stuns:[fe80::1%eth0]:443", "turns:[fe80::1%eth0]?transport=udp",
+		"turns:[fe80::1%eth0]:443?transport=tcp", "turns:[2001:DB8::1]?transport=udp", "turns:[0:0:0:0:0:0:0:1]?transport=udp", "turns:192.0.2.9?transport=udp",
+		"turns:[::ffff:192.0.2.1]?transport=udp", "stun:192.0.2.9:1", "turns:[fe80::1%lo]:1?transport=udp"} {
 		u, err := stun.ParseURI(s)
 		if err != nil {
+			if strings.Contains(s, "[") || strings.Contains(s, "192.0.2.9") {
+				o.count("dial-literal-not-parsed")
+				continue
+			}
 			o.failFor("C17", "valid-uri-rejected", "1701 "+fHex([]byte(s)))
 			continue
 		}
@@ -803,7 +821,7 @@ func dialParsed(o *out) {
 		// example.org must not be resolved through DNS: DialURI resolves the UDP address for DTLS with
 		// net.ResolveUDPAddr, which would need the network; use a literal for that case
 		host := u.Host
-		if u.Scheme == stun.SchemeTypeTURNS && u.Proto == stun.ProtoTypeUDP {
+		if u.Scheme == stun.SchemeTypeTURNS && u.Proto == stun.ProtoTypeUDP && host == "example.org" {
 			u.Host = "192.0.2.7"
 		}
 		cfg := &stun.DialConfig{Net: fn}
@@ -851,6 +869,13 @@ func dialParsed(o *out) {
 			want = "tcp"
 		}
 		wantAddr := net.JoinHostPort(u.Host, fmt.Sprint(u.Port))
+		if u.Scheme == stun.SchemeTypeTURNS && u.Proto == stun.ProtoTypeUDP {
+			// DTLS: the library resolves the address itself and hands over a *net.UDPAddr - the same address (zone
+			// included) in canonical spelling
+			if ra, rerr := net.ResolveUDPAddr("udp", wantAddr); rerr == nil {
+				wantAddr = ra.String()
+			}
+		}
 		if len(dials) != 1 || dials[0] != want+" "+wantAddr || network != want {
 			o.failFor("C17", "dialed-wrong-transport-or-address", fmt.Sprintf("1701 %s dials=%v", fHex([]byte(s)), dials))
 			continue
@@ -860,7 +885,8 @@ func dialParsed(o *out) {
 		if secure == cleartext {
 			o.failFor("C17", "secure-vs-cleartext-mismatch", "1701 "+fHex([]byte(s)))
 		}
-		if secure && u.Proto == stun.ProtoTypeTCP && !bytes.Contains(first, []byte(host)) {
+		_, literalErr := netip.ParseAddr(host)
+		if secure && u.Proto == stun.ProtoTypeTCP && literalErr != nil && !bytes.Contains(first, []byte(host)) { // (an IP literal is never sent as a server name)
 			o.failFor("C17", "tls-server-name-missing", "1701 "+fHex([]byte(s)))
 		}
 		o.count("dial-parsed")
